@@ -24,8 +24,8 @@ package cache
 //@   callsite SetIfAbsent: [C07:entry-holds-what-was-stored] entryHolds(arg2, arg1, k, v, storedTime, expireTime)
 //@   callsite Set: [C07:entry-holds-what-was-stored] entryHolds(arg2, arg1, k, v, storedTime, expireTime)
 // the key kept by the back end and by the entry is a copy of its own: the caller recycles its key buffer right away
-//@   callsite Set: [C20:key-is-a-private-copy] fresh(arg1) && !sameObj(arg1, k) && !sameObj(arg2.k, k)
-//@   callsite SetIfAbsent: [C20:key-is-a-private-copy] fresh(arg1) && !sameObj(arg1, k) && !sameObj(arg2.k, k)
+//@   callsite Set: [C20,C07:key-is-a-private-copy] fresh(arg1) && !sameObj(arg1, k) && !sameObj(arg2.k, k)
+//@   callsite SetIfAbsent: [C20,C07:key-is-a-private-copy] fresh(arg1) && !sameObj(arg1, k) && !sameObj(arg2.k, k)
 //@ spec func entryHolds(e *cacheEntry, ks string, k []byte, v []byte, st time.Time, et time.Time) bool = e != nil && fresh(e)
 //@        && len(ks) == len(k) && forall(j, 0, len(k), ks[j] == k[j]) && e.k == ks
 //@        && e.v != nil && fresh(e.v) && len(e.v) == len(v) && bytesEq(e.v, 0, v, 0, len(v))
